@@ -437,12 +437,15 @@ class PanicAnalysis:
         self.callee_inventory = {}
         self.pending_pre = []  # (callee fn, site key, obligation builder)
         self.uninlined = set()  # new helpers met as opaque calls (nesting deeper than the inlining bound)
+        self.path_filter = None  # fn, leaf -> True if the path contradicts a separately proved object invariant
 
     # ---- per function
     def analyse_fn(self, fn, env_facts=None):
         leaves = PathEnum(fn, self.facts, versioned=True, lower=True).run()
         cyc = fn.cyclic_blocks()
         for lf in leaves:
+            if self.path_filter is not None and self.path_filter(fn, lf):
+                continue    # excluded by an object invariant that is proved separately
             st = State()
             tr = Tr(self.facts, fn, st, self.tables)
             if env_facts:
